@@ -215,7 +215,7 @@ pub fn run_serial(scn: Arc<Scenario>, order: Vec<(usize, usize)>) -> SerialOutco
         Outcome::Done((o, f)) => SerialOutcome::Done(o, f),
         Outcome::Panic(m) => SerialOutcome::Panic(m),
         Outcome::Deadlock(_) => SerialOutcome::Blocks,
-        Outcome::StepBound => SerialOutcome::Blocks,
+        Outcome::StepBound | Outcome::Livelock => SerialOutcome::Blocks,
     }
 }
 
